@@ -9,8 +9,6 @@ From OAS Require Import Scalar.
 Section Transfer.
   Context {T : Type} {K : Ops T}.
 
-  Definition iff0 (b : bool) (x : T) : T := if b then x else o0.
-
   (* wingbox spar location (setup of ComputeNodes / LoadTransfer) *)
   Definition wingbox_fem_origin (xu0 yu0 yl0 xuN yuN ylN : T) : T :=
     (xu0 *! (yu0 -! yl0) +! xuN *! (yuN -! ylN)) /! ((yu0 -! yl0) +! (yuN -! ylN)).
